@@ -46,6 +46,7 @@ struct pthr {
 	int	deinit;		/* call iv_deinit at the end (else leave it to the destructor) */
 	int	td;		/* has a tear-down handle */
 	int	sigmask_all;	/* thread blocks all (simulated) signals */
+	int	reenter;	/* after iv_quit: call iv_main again this many times with everything still registered */
 };
 
 struct plan {
